@@ -140,7 +140,12 @@ SStep(e) ==
       [] failed -> Step(e) /\ UNCHANGED ext
       [] e.ev = "Alloc" -> SAlloc(e)
       [] e.ev = "SATBSlow" -> Skip /\ ext' = [X EXCEPT !.pendSlow = Append(@, e.src)]
-      [] e.ev = "SATBPush" -> Skip /\ ext' = [X EXCEPT !.pendPush = Append(@, e.old)]
+      \* SATB!BarrierRecord precedes SATB!BarrierLog: an old value is recorded while its source still
+      \* counts as not logged (otherwise a second mutator skips the barrier before the value is safe)
+      [] e.ev = "SATBPush" ->
+            IF G("C12:source-logged-before-its-old-values-were-recorded", "su" \in DOMAIN e => e.su # 0)
+            THEN Skip /\ ext' = [X EXCEPT !.pendPush = Append(@, e.old)]
+            ELSE FailStep /\ UNCHANGED ext
       [] e.ev = "SATBFlush" -> SFlush(e)
       [] e.ev = "Write" -> SWrite(e)
       [] e.ev = "RegionCopy" -> SRegionCopy(e)
